@@ -184,7 +184,14 @@ class Output(BaseOutput):
 
         if self.instance_variables is not None:
             for var, conf in self.instance_variables.items():
-                v = nc.createVariable(var, conf["encoding"]["datatype"], instance_dim)
+                datatype = conf["encoding"]["datatype"]
+                if self.layout == "dense" and datatype in ["f4", "f8"]:
+                    # Undefined values, before release or after death, are NaN
+                    v = nc.createVariable(
+                        var, datatype, instance_dim, fill_value=np.nan
+                    )
+                else:
+                    v = nc.createVariable(var, datatype, instance_dim)
                 for att, value in conf["attributes"].items():
                     # Replace string "reference_time" with actual reference time
                     if isinstance(value, str) and "reference_time" in value:
